@@ -33,6 +33,7 @@ def main():
         subprocess.check_call(['rsync', '-a', '--exclude', '.git', '/repo/', repo + '/'])
         subprocess.check_call(['git', 'init', '-q'], cwd=repo)
         env['IVSX_REPO'] = repo
+        env['IVSX_EVIDENCE_DIR'] = os.path.join(tmp, 'evidence')
     rc_all = {}
     try:
         subprocess.check_call(['git', 'apply', '--whitespace=nowarn', patch], cwd=repo)
